@@ -2786,3 +2786,9 @@ def _spec_rand_u(I, i):
     if f is None:
         return I.fresh_const("no_rand", z3.RealSort())
     return f(to_int(i))
+
+
+@lib("sys.exit")
+def _sys_exit(I, code=0):
+    I.ghost["exit_code"] = code
+    raise E.RaiseEx("SystemExit", I.cur_line)
